@@ -2,6 +2,7 @@ import CyVerif.Lemmas.C09Main
 import CyVerif.Lemmas.C09Render2
 import CyVerif.Lemmas.C09Pool5
 import CyVerif.Lemmas.C09PoolAll2
+import CyVerif.Lemmas.C09Fold
 /-!
 # C09 — compile-time constants keep their exact Python values
 
@@ -302,5 +303,42 @@ example :
     (runModule ⟨false, false⟩ true [.tuple neg, .fset [pos]]).map (·.2) =
       [some (.tuple [.atom (.float (2 ^ 63))]), some (.fset [.tuple [.atom (.float (2 ^ 63))]])] := by
   constructor <;> rfl
+
+/-! ## Part C — the one folding rule that rewrites a pooled literal: constant slice of a sequence literal -/
+
+/-- Full statement: whenever the folder cuts the literal, the cut literal denotes the slice of the value. -/
+def FullFoldSliceSound (guard : Bool) : Prop :=
+  ∀ (n n' : Node) (a b : Nat) (xs : List Val), foldSlice guard n a b = some n' →
+    evalNode n = some (.tuple xs) → evalNode n' = some (.tuple (pySlice xs a b))
+
+/-- With the guard `base.mult_factor is None` (as in the source): sound for every literal and all bounds. -/
+theorem fold_slice_sound : FullFoldSliceSound true := by
+  intro n n' a b xs h he
+  cases n with
+  | leaf t x => simp [foldSlice] at h
+  | opq => simp [foldSlice] at h
+  | slice x y z => simp [foldSlice] at h
+  | seq k m args =>
+    cases m with
+    | some f => simp [foldSlice] at h
+    | none =>
+      simp only [foldSlice, Option.isSome_none, Bool.and_false, Bool.false_eq_true, if_false, Option.some.injEq] at h
+      subst h
+      simp only [evalNode] at he
+      cases hx : evalNodes args with
+      | none => simp [hx] at he
+      | some ys =>
+        simp only [hx, Option.some.injEq, Val.tuple.injEq] at he; subst he
+        simp [evalNode, evalNodes_slice args ys a b hx]
+
+/-- Without the guard the statement is false: `((1, 2) * 3)[1:4]` would become `(2,) * 3`. -/
+theorem fold_slice_unsound_without_guard : ¬ FullFoldSliceSound false := by
+  intro h
+  have := h (.seq 0 (some (.cint 0, 3)) [.leaf .pyint (.int 1), .leaf .pyint (.int 2)]) _ 1 4
+    [.atom (.int 1), .atom (.int 2), .atom (.int 1), .atom (.int 2), .atom (.int 1), .atom (.int 2)] rfl rfl
+  simp [evalNode, evalNodes, pySlice, repeatList] at this
+
+example : foldSlice true (.seq 0 none [.leaf .pyint (.int 1), .leaf .pyint (.int 2), .leaf .pyint (.int 3)]) 1 3 =
+    some (.seq 0 none [.leaf .pyint (.int 2), .leaf .pyint (.int 3)]) := rfl
 
 end CyVerif.C09
